@@ -470,9 +470,7 @@ func (m *monitor) runModule() {
 		}
 		ks := minus(all, works)
 		if len(ks) == 0 {
-			// every kind on the path works somewhere in this module (partial breakage): blame the
-			// edge nearest to the unfrozen node
-			ks = all[len(all)-1:]
+			ks = all // every kind on the path works somewhere in this module (partial breakage)
 		}
 		if len(ks) > 1 {
 			ever := map[string]bool{}
@@ -739,7 +737,9 @@ p_module = module("m", a = [1])
 func probeEdgeKinds() {
 	env := newHostEnv()
 	var g starlark.StringDict
-	if p := sl.Safe(func() { g, _ = starlark.ExecFileOptions(sl.AllOptions(), &starlark.Thread{Name: "probe"}, "probe.star", probeSrc, env.pre) }); p != nil {
+	if p := sl.Safe(func() {
+		g, _ = starlark.ExecFileOptions(sl.AllOptions(), &starlark.Thread{Name: "probe"}, "probe.star", probeSrc, env.pre)
+	}); p != nil {
 		return
 	}
 	var roots []root
